@@ -23,7 +23,8 @@ check("C13", "proof",
       "`type(e) == T` is an exhaustive 12x12 table. Rows over timestamp/duration are run on representative instances "
       "(bounded, labelled).",
       "Finite class universe; builtin operators on subclass instances return the base type (pyvc.models, cross-checked "
-      "against CPython); time rows are a bounded stand-in; macro result classes are covered by C02/C09 contracts.",
+      "against CPython); time rows are a bounded stand-in; macro result classes are covered by C02/C09 contracts; a finite table runs "
+      "has(), in, the string predicates and the boolean macros through both runners (recorded finding: the compiled has() is a Python bool).",
       "contract-based deductive verification (class postcondition on every path) + exhaustive finite table", "DESIGN.md 4/C13")
 check("C18", "proof",
       "logical_connector is executed symbolically for every node kind (not/or/and/list with 1-3 abstract children, "
@@ -207,8 +208,10 @@ check("C04", "proof",
       "return anything or raise any exception class of its declared envelope; obligation: the method returns or raises "
       "CELEvalError only (every other exit is an R obligation). CELParser.parse is executed with lark's parser abstract "
       "(returns or raises each lark error class): only CELParseError leaves.",
-      "layer 2 (each real built-in operator/function raises only its declared envelope) is a bounded check over a 60-value "
-      "boundary grid of all kinds (1-, 2-, sampled 3-argument calls); whole programs (every construct over atoms of every "
+      "layer 2 (each real built-in operator/function raises only its declared envelope) is DISCHARGED for the 14 non-logical "
+      "operators on all pairs of scalar kinds (bool, int64, uint64, double, string, bytes, null) by symbolic execution of the real "
+      "celtypes code incl. CPython's exact float/int comparison and its __neg__ side effect, cross-checked per path; for containers, "
+      "time values, types and the named functions it is a bounded check over a 60-value boundary grid; whole programs (every construct over atoms of every "
       "kind, both runners, compile/program/evaluate/str+repr stages), parse-error positions over all short texts, and "
       "CEL's minimum nesting in fresh interpreters with default / lowered / raised recursion limits are bounded stand-ins. "
       "One recorded finding: malformed macro argument lists.",
